@@ -7,6 +7,7 @@ package c20
 import (
 	"os"
 	"path/filepath"
+	"strings"
 
 	"verif/core"
 	"verif/instr"
@@ -38,8 +39,56 @@ func Job(extra ...instr.Target) sched.Job {
 	}
 }
 
+// auxKeep selects the scenarios of the auxiliary free-running -race pass: everything outside the
+// request matrix, and of the matrix the 3-thread scenarios and every kind against itself.
+func auxKeep(scenario string) bool {
+	if !strings.HasPrefix(scenario, "c20A/matrix/") {
+		return true
+	}
+	if strings.HasPrefix(scenario, "c20A/matrix/3t") {
+		return true
+	}
+	if i := strings.Index(scenario, " pre=- "); i >= 0 {
+		ks := strings.Split(scenario[i+len(" pre=- "):], " || ")
+		return len(ks) == 2 && ks[0] == ks[1]
+	}
+	return false
+}
+
 // Families explored by the C20 check.
 var Families = []string{"c20A", "c17"}
+
+// MatrixMenus states the request matrix of family A (checks/c20/scen/matrix.go) for the evidence.
+var MatrixMenus = map[string]string{
+	"request_kinds": "5 negotiated response encodings {json, xml, gob, text/plain, text/html} x 6 outcome classes {ok, invalid (validation failure), declared error, undeclared error, notfound (404, the muxer's not-found handler), notallowed (405)} = 30 kinds; " +
+		"one request = generated-client steps (RequestEncoder, Doer, ResponseDecoder) -> in-memory wire (scheduling point, Request.Write, http.ReadRequest) -> generated-handler steps on the real runtime (Muxer, RequestDecoder, Vars, ValidatePattern, MergeErrors, ResponseEncoder, one ErrorEncoder closure per handler)",
+	"scenario":         "[sequential prefix: one request kind or none, run single-threaded on the mounted server before the threads start] ; 2 or 3 requests in flight, each tagged with its issuer",
+	"quick_pairs":      "no prefix; ALL 465 unordered pairs of the 30 kinds (a kind with itself included)",
+	"quick_samenc":     "prefix (e,o0) ; (e,o1) || (e,o2) for every encoding e, every prefix outcome o0, every unordered outcome pair: 5*6*21 = 630",
+	"quick_afterany":   "prefix = any of the 30 kinds ; (e1,ok) || (e2,ok) for every e1 <= e2: 30*15 = 450",
+	"quick_triples":    "3 threads, one encoding e: prefix (e,notfound) ; ok || undeclared || notfound, and no prefix ; ok || invalid || declared: 10",
+	"quick_bound":      "every schedule with <= 2 preemptions; every alternative of every sync.Pool Get (any pooled value or a fresh one) at no preemption cost",
+	"thorough_full":    "prefix in {none} + 30 kinds ; ALL 465 pairs = 14415 scenarios (contains the quick 2-thread menus), <= 2 preemptions; the quick 2-thread menus additionally <= 3 preemptions, the prefix-free pairs additionally ALL interleavings",
+	"thorough_triples": "3 threads, one encoding e, prefix in {none, (e,notfound), (e,ok)}, every outcome multiset of size 3: 5*3*56 = 840, <= 2 preemptions",
+	"oracle":           "each request's (status, headers, body modulo error id, error-handler calls, value decoded by the client) equals the same request alone on a FRESH server without prefix and without peers; happens-before races; deadlock; panic",
+}
+
+// rowGroup aggregates the rows of the request matrix in the evidence (one row per menu slice
+// instead of one per scenario).
+func rowGroup(scenario string) string {
+	if !strings.HasPrefix(scenario, "c20A/matrix/") {
+		return ""
+	}
+	g := scenario
+	if i := strings.Index(g, " pre="); i >= 0 {
+		g = g[:i]
+		if strings.HasPrefix(scenario[i:], " pre=- ") {
+			return g + " no prefix"
+		}
+		return g + " after a sequential prefix request"
+	}
+	return g
+}
 
 // Run explores family A.
 func Run(c *core.Ctx) {
@@ -53,7 +102,13 @@ func Run(c *core.Ctx) {
 	c.Assume("error IDs (random per occurrence) are masked in the observables; time.Now/Since inside instrumented files read a virtual clock; the samplers' random source is a harness-owned seam")
 	c.Assume("not covered by the scheduler (blocking inside uninstrumented primitives): SkipResponseWriter's io.Pipe, StreamCanceler's channel receive, WebSocket I/O; " +
 		"FAMILY B (generated servers/clients) is added by the generation pipeline through sched.Job.Extra")
-	c.Note("bounds", "family A: 2-3 threads x 1-2 operations, preemption bound 2 (quick) / 3 for two threads (thorough); C17 cache scenarios: all interleavings for two threads")
+	c.Note("bounds", "family A: 2-3 threads x 1-2 operations, preemption bound 2 (quick) / 3 for two threads (thorough); C17 cache scenarios: all interleavings for two threads; "+
+		"request matrix: see request_matrix_family_a")
+	c.Note("request_matrix_family_a", MatrixMenus)
+	c.Assume("sync.Pool (shim): a Get returns ANY value Put before by any thread, or a fresh one -- every alternative is explored as a data choice of the caller (at most 7 pooled values + fresh per Get); " +
+		"pool misuse (double Put, use after Put) is never reported by itself, only through the differential or the race oracle; pools inside uninstrumented packages (encoding/json, fmt) are the real sync.Pool on one P")
+	c.Assume("sequential prefix: the prefix request runs single-threaded on the mounted server before the threads start; the sequential references are computed WITHOUT it (fresh server), " +
+		"so state an earlier request leaves behind must not show in a later response either")
 	j := Job()
 	if c.Thorough() && os.Getenv("VERIF_C20_DEEP") != "0" {
 		// thorough: additionally hook every field / element / pointee reached through ANY
@@ -66,7 +121,7 @@ func Run(c *core.Ctx) {
 		c.HarnessError("C20: %v", err)
 		return
 	}
-	o := sched.Options{Families: Families}
+	o := sched.Options{Families: Families, RowGroup: rowGroup, AuxKeep: auxKeep}
 	ms, err := b.Explore(c, o)
 	if err != nil {
 		c.HarnessError("C20: %v", err)
